@@ -52,6 +52,11 @@ class Context:
         self.ghost_assumes = set()
         self.ob_cache = {}
         self.degraded = set()
+        self._alias = {}
+        self.renamed = set()
+        bl = os.path.join(os.path.dirname(os.path.dirname(os.path.abspath(__file__))), "baseline_locals.json")
+        import json as _json
+        self.baseline_locals = _json.load(open(bl)) if os.path.exists(bl) else {}
         self.keep = []
 
     def patterns_for(self, body, j):
@@ -186,6 +191,62 @@ class Context:
         self._mods[key] = res
         return res
 
+    # ---- renamed locals: contracts name locals of the pinned tree; a pure rename is followed through the
+    # "definition signature" of the variable (shapes of everything assigned to it, local names erased)
+    def local_signatures(self, module, qualname):
+        fn = self.source.find_function(module, qualname)
+        locals_ = set()
+        for n in ast.walk(fn):
+            if isinstance(n, ast.Name) and isinstance(n.ctx, ast.Store):
+                locals_.add(n.id)
+            if isinstance(n, ast.arg):
+                locals_.add(n.arg)
+
+        class Eraser(ast.NodeTransformer):
+            def visit_Name(self, node):
+                return ast.copy_location(ast.Name(id="_" if node.id in locals_ else node.id, ctx=ast.Load()), node)
+        import copy
+
+        def shape(e):
+            return ast.dump(Eraser().visit(copy.deepcopy(e)))
+        sig = {}
+        for k, a in enumerate(fn.args.args):
+            sig.setdefault(a.arg, []).append("param#%d" % k)
+        for n in ast.walk(fn):
+            if isinstance(n, ast.Assign):
+                for t in n.targets:
+                    for nm in ast.walk(t):
+                        if isinstance(nm, ast.Name) and isinstance(nm.ctx, ast.Store):
+                            sig.setdefault(nm.id, []).append("=" + shape(n.value))
+            elif isinstance(n, ast.AugAssign) and isinstance(n.target, ast.Name):
+                sig.setdefault(n.target.id, []).append(type(n.op).__name__ + "=" + shape(n.value))
+            elif isinstance(n, ast.For) and isinstance(n.target, ast.Name):
+                sig.setdefault(n.target.id, []).append("for:" + shape(n.iter))
+            elif isinstance(n, ast.comprehension) and isinstance(n.target, ast.Name):
+                sig.setdefault(n.target.id, []).append("comp:" + shape(n.iter))
+            elif isinstance(n, ast.FunctionDef) and n is not fn:
+                sig.setdefault(n.name, []).append("def")
+        return {k: sorted(vs) for k, vs in sig.items()}
+
+    def alias_for(self, module, qualname, name):
+        key = (module, qualname, name)
+        if key in self._alias:
+            return self._alias[key]
+        res = None
+        base = self.baseline_locals.get("%s.%s" % (module, qualname), {})
+        if name in base:
+            try:
+                cur = self.local_signatures(module, qualname)
+            except Unsupported:
+                cur = {}
+            if name not in cur:
+                cands = [k for k, v in cur.items() if v == base[name] and k not in base]
+                if len(cands) == 1:
+                    res = cands[0]
+                    self.renamed.add("%s.%s: contract local `%s` is `%s` in the tree under test" % (module, qualname, name, res))
+        self._alias[key] = res
+        return res
+
     def loop_len_mods(self, module, qualname, loop):
         """Names of lists whose length may change in the loop (append/extend/+=)."""
         out = set()
@@ -276,13 +337,15 @@ def run_path(ctx, unit, prefix):
                     outer.vars[st.name] = Closure(st, outer, ".".join(parts[:-1]) + "." + st.name)
         names = [a.arg for a in fn.args.args]
         params = unit.get("params", {})
-        for nme in names:
-            if nme not in params:
-                raise Unsupported("contract of %s does not declare parameter %s" % (unit["name"], nme))
-            env.vars[nme] = _param_value(m, nme, params[nme], unit)
-        for extra in params:
-            if extra not in names:
-                raise Unsupported("contract of %s names a parameter %s the function does not have" % (unit["name"], extra))
+        pnames = list(params)
+        if len(names) != len(pnames):
+            raise Unsupported("contract of %s declares %d parameters, the function has %d" % (unit["name"], len(pnames), len(names)))
+        for nme, cname in zip(names, pnames):
+            # parameters are matched by position; the solver symbol keeps the contract's name (replay reads it)
+            env.vars[nme] = _param_value(m, cname, params[cname], unit)
+            if nme != cname:
+                ctx._alias[(unit["module"], unit["qualname"], cname)] = nme
+                ctx.renamed.add("%s: parameter `%s` is `%s` in the tree under test" % (unit["name"], cname, nme))
         m.entry_env = env
         if unit.get("ghost_entry"):
             m.run_ghost(unit["ghost_entry"], env)
